@@ -2,6 +2,7 @@
 # usage: seedcheck.sh <patch.diff> <property>...   -- apply a seeded change to /repo, run the checks, undo it
 patch=$1; shift
 cd /repo || exit 2
+if [ -n "$(git status --porcelain)" ]; then echo "refusing: /repo has uncommitted changes (commit contract files first)"; exit 2; fi
 if ! git apply --check "$patch" 2>/dev/null; then echo "patch does not apply: $patch"; exit 2; fi
 git apply "$patch"
 rc_all=0
